@@ -455,6 +455,7 @@ package desync
 //@ spec func wfChunks(cs []IndexChunk) bool = offsetsBounded(cs) && (len(cs) > 0 ==> cs[0].Start == 0) && \
 //@     (forall j int :: inrng(cs, j) ==> elem(cs, j).Size > 0) && \
 //@     (forall j int :: inrng(cs, j) && inrng(cs, j+1) ==> elem(cs, j+1).Start == cend(cs, j)) && \
+//@     (forall k int :: 0 < k && k < len(cs) ==> cs[k].Start == cs[k-1].Start + cs[k-1].Size) && \
 //@     (forall j int, k int :: inrng(cs, j) && inrng(cs, k) && j <= k ==> cend(cs, j) <= cend(cs, k) && elem(cs, j).Start <= elem(cs, k).Start)
 
 //# truthful index: the size recorded for a chunk is the length of the data its ID stands for.
@@ -645,10 +646,24 @@ package desync
 //@   ensures r1 == nil ==> len(r0.Body) + 16 <= $consumed - old($consumed)
 
 //@ func IndexFromReader
-//@   prop C19
+//@   prop C19 C04
 //@   checks alloc
 //@   requires $consumed >= 0
-//@   modifies all, $consumed
+//@   modifies all, $consumed, $items, $alg
+//@   safety C19
+//@   ghost@after:Next $items = as($r0, FormatTable).Items
+//@   ensures @C04 err == nil ==> tableMatches(c.Chunks, $items)
+//# rejection: a chunk larger than the declared maximum, and offsets that decrease
+//@   ensures @C04 err == nil ==> forall k int :: 0 <= k && k < len(c.Chunks) ==> c.Chunks[k].Size <= c.Index.ChunkSizeMax
+//@   ensures @C04 err == nil ==> forall k int :: 0 < k && k < len(c.Chunks) ==> $items[k-1].Offset <= $items[k].Offset
+//# rejection: digest flag must agree with the configured digest
+//@   ghost@after:Algorithm $alg = $r0
+//@   ensures @C04 err == nil && $alg == crypto.SHA512_256 ==> c.Index.FeatureFlags & CaFormatSHA512256 != 0
+//@   ensures @C04 err == nil && $alg == crypto.SHA256 ==> c.Index.FeatureFlags & CaFormatSHA512256 == 0
+//@   loop 1: invariant @C04 len(c.Chunks) == len(table.Items) && $items == table.Items && lastOffset == ite($i == 0, 0, table.Items[$i-1].Offset)
+//@   loop 1: invariant @C04 tableMatches(c.Chunks[:$i], table.Items[:$i])
+//@   loop 1: invariant @C04 forall k int :: 0 <= k && k < $i ==> c.Chunks[k].Size <= c.Index.ChunkSizeMax
+//@   loop 1: invariant @C04 forall k int :: 0 < k && k < $i ==> table.Items[k-1].Offset <= table.Items[k].Offset
 
 //@ func (a *ArchiveDecoder) Next
 //@   prop C19
@@ -662,3 +677,80 @@ package desync
 //@   prop C19
 //@   requires $consumed >= 0
 //@   loop 1: invariant $consumed >= 0
+
+// ---------------------------------------------------------------------------- C04: index files
+
+//@ spec func algOf(h HashAlgorithm) int
+//@ func (h HashAlgorithm) Algorithm() (r0)
+//@   pure
+//@   ensures r0 == algOf(h)
+
+//@ ghost var $items []FormatTableItem
+//@ ghost var $alg int
+//# $items: the chunk table as decoded from / encoded into the stream (offset, id per chunk)
+
+//# the start/size table is the cumulative-offset table: same IDs, end offsets equal, no wrap-around
+//@ spec func tableMatches(cs []IndexChunk, its []FormatTableItem) bool = len(cs) == len(its) && \
+//@     forall k int :: 0 <= k && k < len(cs) ==> cs[k].ID == its[k].Chunk && cs[k].Start + cs[k].Size == its[k].Offset && \
+//@         cs[k].Start == ite(k == 0, 0, its[k-1].Offset)
+
+//@ func (i *Index) WriteTo
+//@   prop C04
+//@   requires wfChunks(i.Chunks)
+//# what is handed to the encoder: the header with the index parameters, then the cumulative table
+//@   oncall Encode: requires is($arg0, FormatIndex) ==> as($arg0, FormatIndex).Size == 48 && as($arg0, FormatIndex).Type == CaFormatIndex && \
+//@       as($arg0, FormatIndex).FeatureFlags == i.Index.FeatureFlags && as($arg0, FormatIndex).ChunkSizeMin == i.Index.ChunkSizeMin && \
+//@       as($arg0, FormatIndex).ChunkSizeAvg == i.Index.ChunkSizeAvg && as($arg0, FormatIndex).ChunkSizeMax == i.Index.ChunkSizeMax
+//@   oncall Encode: requires is($arg0, FormatTable) ==> as($arg0, FormatTable).Size == 18446744073709551615 && as($arg0, FormatTable).Type == CaFormatTable && \
+//@       tableMatches(i.Chunks, as($arg0, FormatTable).Items)
+//@   loop 1: invariant len(fChunks) == len(i.Chunks) && offset == ite($i == 0, 0, i.Chunks[$i-1].Start + i.Chunks[$i-1].Size) && tableMatches(i.Chunks[:$i], fChunks[:$i])
+
+//# round trip at the level of the tables: reading back what WriteTo hands to the encoder yields the same chunks
+//@ lemma @C04 indexRoundTrip: forall a []IndexChunk, b []IndexChunk, t []FormatTableItem :: tableMatches(a, t) && tableMatches(b, t) ==> \
+//@     forall k int :: 0 <= k && k < len(a) ==> a[k].ID == b[k].ID && a[k].Start == b[k].Start && a[k].Size == b[k].Size
+
+//@ func (w writer) WriteUint64
+//@   prop C04 C13
+//@   pure
+//@   ensures r1 == nil ==> r0 >= 0
+
+//@ func (w writer) WriteID
+//@   prop C04 C13
+//@   pure
+
+//@ func (e *FormatEncoder) Encode
+//@   prop C04 C13
+//@   safety none
+//@   pure
+
+// ---------------------------------------------------------------------------- C05: mode bits (bit-vector arithmetic, total)
+
+//# st_mode -> os.FileMode and back, written from the meaning of the bits (S_IFMT 0170000:
+//# BLK 060000 CHR 020000 DIR 040000 FIFO 010000 LNK 0120000 SOCK 0140000 REG 0100000;
+//# S_ISUID 04000 S_ISGID 02000 S_ISVTX 01000; Go: ModeDir 1<<31, ModeSymlink 1<<27, ModeDevice 1<<26,
+//# ModeNamedPipe 1<<25, ModeSocket 1<<24, ModeSetuid 1<<23, ModeSetgid 1<<22, ModeCharDevice 1<<21, ModeSticky 1<<20)
+//@ spec func s2fType(s uint32) os.FileMode = ite(s & 0170000 == 060000, 67108864, ite(s & 0170000 == 020000, 69206016, ite(s & 0170000 == 040000, 2147483648, \
+//@     ite(s & 0170000 == 010000, 33554432, ite(s & 0170000 == 0120000, 134217728, ite(s & 0170000 == 0140000, 16777216, 0))))))
+//@ spec func s2f(s uint32) os.FileMode = (s & 0777) | s2fType(s) | ite(s & 02000 != 0, 4194304, 0) | ite(s & 04000 != 0, 8388608, 0) | ite(s & 01000 != 0, 1048576, 0)
+//@ spec func f2sType(m os.FileMode) uint32 = ite(m & 2401763328 == 67108864, 060000, ite(m & 2401763328 == 69206016, 020000, ite(m & 2401763328 == 2147483648, 040000, \
+//@     ite(m & 2401763328 == 33554432, 010000, ite(m & 2401763328 == 134217728, 0120000, ite(m & 2401763328 == 16777216, 0140000, 0100000))))))
+//@ spec func f2s(m os.FileMode) uint32 = (m & 0777) | f2sType(m) | ite(m & 8388608 != 0, 04000, 0) | ite(m & 4194304 != 0, 02000, 0) | ite(m & 1048576 != 0, 01000, 0)
+//@ spec func validStatType(s uint32) bool = s & 0170000 == 060000 || s & 0170000 == 020000 || s & 0170000 == 040000 || s & 0170000 == 010000 || \
+//@     s & 0170000 == 0120000 || s & 0170000 == 0140000 || s & 0170000 == 0100000
+
+//@ func StatModeToFilemode
+//@   prop C05
+//@   arith bv
+//@   pure
+//@   ensures r0 == s2f(mode)
+
+//@ func FilemodeToStatMode
+//@   prop C05
+//@   arith bv
+//@   pure
+//@   ensures r0 == f2s(mode)
+
+//# every st_mode with a valid file type and no bits beyond type|set-id|sticky|permissions survives the round trip
+//@ lemma @C05 bv modeRoundTrip: forall s uint32 :: validStatType(s) && s & 4294901760 == 0 ==> f2s(s2f(s)) == s
+//# and every Go mode that StatModeToFilemode can produce survives the other way
+//@ lemma @C05 bv fileModeRoundTrip: forall s uint32 :: validStatType(s) && s & 4294901760 == 0 ==> s2f(f2s(s2f(s))) == s2f(s)
